@@ -966,7 +966,16 @@ def run_case(ctx, t, npts=2):
             continue
         xe = o.domain.element(x)
         xbytes = np.asarray(xe).tobytes()
-        y = o(xe)
+        try:
+            y = o(xe)
+            if rr != 'F':
+                o(xe.copy(), out=o.range.element(np.full(rr, np.nan)))
+        except Exception as e:      # noqa -- an accepted expression must evaluate in and out of place
+            term = ('{| c_vt := vt_now; c_kon := %s; c_expr := %s; c_build := BOther; c_points := [] |}'
+                    % (kon_term(ctx), to_coq(ctx, t)))
+            return term, {'expr': src_skeleton(t), 'x': x,
+                          'outcome': 'evaluation raised %s: %s' % (type(e).__name__, str(e)[:120])}, \
+                ('raises', src_skeleton(t))
         out = flat(ctx, y)
         out2 = flat(ctx, o(xe))                     # same point again: nothing may have been modified
         ip = 'None'
@@ -1143,6 +1152,14 @@ def oracle_node(ctx, t, xs):
         return ('domain-range', 'implied %s->%s, built %s->%s' % (d, r, dd, rr))
     if lin and not o.is_linear:
         return ('flag-not-linear', 'implied linear, is_linear=False')
+    try:
+        return _oracle_values(ctx, t, o, xs, d, rr)
+    except Exception as e:      # noqa
+        return ('evaluation-raises', '%s: %s' % (type(e).__name__, str(e)[:160]))
+
+
+def _oracle_values(ctx, t, o, xs, d, rr):
+    import numpy as np
     for x in xs:
         if len(x) != d:
             continue
